@@ -1287,6 +1287,44 @@ func (s *c08Sess) batch(c c08Case, rng *vRand, target string, pending []byte) {
 			// epoch-0 records out of the window: that would be the known power of an unauthenticated sender, X2)
 			binary.BigEndian.PutUint32(d[7:], uint32(28+4*i+rng.intn(4))) //nolint:gosec
 			s.inject(target, d, c08Classify(d, ctx), "warn")
+		case "dupfirst", "forgefirst":
+			// the FIRST record of the pending genuine datagram, re-framed (its handshake message split into two
+			// fragments in one record: same content) under a small unused record number, arrives before the genuine
+			// one.  Nothing is forged but the framing, so the handshake must go on - in particular the two honest
+			// endpoints must not start answering each other's "retransmissions" without delay (F78)
+			if len(pending) < 13+12+4 || pending[0] != 22 || pending[3] != 0 || pending[4] != 0 {
+				return
+			}
+			n := int(binary.BigEndian.Uint16(pending[11:]))
+			if 13+n > len(pending) {
+				return
+			}
+			h := pending[13 : 13+n]
+			fl := int(h[9])<<16 | int(h[10])<<8 | int(h[11])
+			if fl < 4 || 12+fl > len(h) {
+				return
+			}
+			off := int(h[6])<<16 | int(h[7])<<8 | int(h[8])
+			cut := fl / 2
+			a := append([]byte(nil), h[:12]...)
+			c08Put24(a[9:], cut)
+			a = append(a, h[12:12+cut]...)
+			b := append([]byte(nil), h[:12]...)
+			c08Put24(b[6:], off+cut)
+			c08Put24(b[9:], fl-cut)
+			b = append(b, h[12+cut:12+fl]...)
+			if c.Gen == "forgefirst" {
+				// same framing trick, but the message is FORGED: a few bytes near its end are changed (key share /
+				// last extension).  Exception X2 applies - the handshake may fail - but it must fail or stall quietly:
+				// no panic, no zero-delay exchange of "retransmissions" between the two honest endpoints (F78)
+				for k := 0; k < 3; k++ {
+					b[len(b)-1-rng.intn(min(8, fl-cut))] ^= byte(1 + rng.intn(255))
+				}
+			}
+			d := append(append(append([]byte(nil), pending[:13]...), a...), b...)
+			d[5], d[6], d[7], d[8], d[9], d[10] = 0, 0, 0, 0, 0, byte(0x29+i)
+			binary.BigEndian.PutUint16(d[11:], uint16(len(d)-13)) //nolint:gosec
+			s.inject(target, d, "clear", c.Gen)
 		case "seqpoison":
 			// harmless content under a huge record sequence number: the epoch-0 window must not move (F70)
 			sq := []uint64{recordlayer.MaxSequenceNumber, 1 << 47, 1 << 32, recordlayer.MaxSequenceNumber - 1}[(c.Item+i)%4]
@@ -1703,12 +1741,18 @@ func c08Cases(seed uint64, thorough bool) []c08Case {
 					cases[len(cases)-1].Item = st + 1
 					if st >= 0 {
 						// F62 and relatives: datagram #st is lost and its sender gets a harmless forged record
-						add(v.Name, st, "lossinj", 1)
+						add(v.Name, st, "dupfirst", 1)
+						add(v.Name, st, "forgefirst", 1)
 						// K-C08-2: the slot of a message the peer sends protected; K-C08-3b: the next message's length pinned
 						add(v.Name, st, "slot", 2)
 						add(v.Name, st, "pinlen", 1)
 						cases[len(cases)-1].Item = []int{1, 2, 11, 16, 20, 8}[st%6]
 					}
+				}
+				for st := 0; st <= 10; st++ {
+					// F62 and relatives: datagram #st (up to the last one of the handshake) is lost and its sender gets a
+					// harmless forged record at that moment
+					add(v.Name, st, "lossinj", 1)
 				}
 				add(v.Name, -1, "flood-cache-auth", 300)
 				add(v.Name, -1, "flood-cache-auth", 300)
@@ -1832,6 +1876,7 @@ func TestVerifC08Replay(t *testing.T) {
 	}
 	stage, _ := strconv.Atoi(f[1])
 	target, data := f[2], c08Hex(f[3])
+	c08StartWatchdog()
 	vBubble(t, func(t *testing.T) {
 		v := c08VariantByName(f[0])
 		res := c08Res{Kind: "case", ID: -1, Variant: v.Name, Stage: stage, Gen: "replay", Target: target, DropOnly: true}
@@ -1843,6 +1888,9 @@ func TestVerifC08Replay(t *testing.T) {
 		ccfg, scfg := v.mk()
 		lab := newLab(t, ccfg, scfg)
 		s.lab = lab
+		c08Watch.mu.Lock()
+		c08Watch.net, c08Watch.id = lab.Net, -1
+		c08Watch.mu.Unlock()
 		injected := false
 		lab.Pump.Policy = func(d vDatagram) (vAction, int) {
 			if stage >= 0 && d.Idx == stage && !injected {
